@@ -193,6 +193,9 @@ func (n *nativeProc) run(j nativeJob) nativeResult {
 	select {
 	case x := <-ch:
 		if x.err != nil {
+			// the process died, or its output is not a result: make sure it is
+			// gone (it may still be alive, waiting for the next job)
+			n.cmd.Process.Kill()
 			n.cmd.Wait()
 			tail := n.stderr.String()
 			if len(tail) > 1500 {
